@@ -32,6 +32,7 @@ type Act struct {
 	User   string   `json:"user,omitempty"`
 	Aname  string   `json:"aname,omitempty"`
 	Err    bool     `json:"err,omitempty"` // the implementation answers Rerror
+	Zero   bool     `json:"zero,omitempty"` // walk: the implementation answers Rwalk without any qid (the extreme partial walk)
 }
 
 type Case struct {
@@ -101,6 +102,9 @@ func run(c *Case) (err error) {
 		if a.Err {
 			b.Err, b.Ecode = "scripted failure", 5
 		}
+		if a.Zero && a.Kind == "walk" {
+			b.ZeroQid = true
+		}
 		if _, err := s.Step(m, b); err != nil {
 			return fmt.Errorf("step %d (%s on conn %d): %w", i, a.Kind, a.Conn, err)
 		}
@@ -164,7 +168,7 @@ func classify(c *Case) bool {
 			}
 		case "walk":
 			for j, n := range a.Names {
-				if len(n) > 0 && n[0] == 'x' && i < len(c.Actions) {
+				if (len(n) > 0 && n[0] == 'x' || a.Zero) && i < len(c.Actions) {
 					partialProbe = true
 					if j == 0 {
 						hx.Label("walk first-name-fails")
@@ -204,6 +208,7 @@ func genAct(t *rapid.T, nconn int) Act {
 	case "walk":
 		a.Newfid = rapid.OneOf(rapid.Just(a.Fid), rapid.SampledFrom(Universe)).Draw(t, "newfid")
 		a.Names = rapid.SliceOfN(rapid.SampledFrom(names), 0, 4).Draw(t, "names")
+		a.Zero = rapid.IntRange(0, 7).Draw(t, "zeroqid") == 0
 	case "open":
 		a.Mode = rapid.SampledFrom([]uint8{0, 1, 2, 3, 16, 0x11, 0x40}).Draw(t, "mode")
 	case "create":
@@ -264,6 +269,10 @@ func TestEnumTransitions(t *testing.T) {
 				Act{Kind: "walk", Fid: fid, Newfid: fid, Names: []string{"d1", "f1"}, Err: e},
 				Act{Kind: "walk", Fid: fid, Newfid: fid, Names: []string{"d1", "x1"}, Err: e},
 				Act{Kind: "walk", Fid: fid, Newfid: 0, Names: []string{"d1"}, Err: e},
+				Act{Kind: "walk", Fid: fid, Newfid: 3, Names: []string{"d1"}, Zero: true, Err: e},
+				Act{Kind: "walk", Fid: fid, Newfid: 3, Names: []string{"d1", "f1"}, Zero: true, Err: e},
+				Act{Kind: "walk", Fid: fid, Newfid: fid, Names: []string{"d1"}, Zero: true, Err: e},
+				Act{Kind: "walk", Fid: 0, Newfid: fid, Names: []string{"d2"}, Zero: true, Err: e},
 				Act{Kind: "walk", Fid: 0, Newfid: fid, Names: []string{"d2"}, Err: e},
 				Act{Kind: "open", Fid: fid, Mode: 0, Err: e},
 				Act{Kind: "open", Fid: fid, Mode: 1, Err: e},
@@ -311,7 +320,7 @@ func TestEnumTransitions(t *testing.T) {
 	_ = model.KDir
 	_ = absFid{}
 	if hx.Thorough() {
-		hx.Exhaustive("every action (42 per fid number x {success, implementation error}) from every abstract state of fid 1 {absent, dir, dir-open, file, file-open, auth} x 2 dialects x AuthOps on/off, each applied twice")
+		hx.Exhaustive("every action (50 per fid number x {success, implementation error}) from every abstract state of fid 1 {absent, dir, dir-open, file, file-open, auth} x 2 dialects x AuthOps on/off, each applied twice")
 	}
 }
 
